@@ -115,3 +115,264 @@ func constString(obj types.Object) string {
 	}
 	return s
 }
+
+// codecSpec is the frozen codec pair table (E8): formatter and parser must be inverse pairs.
+type codecSpec struct {
+	Type     string
+	GoType   string   // asserted type in Set / returned by Value()
+	ToBytes  []string // accepted renderings of the populated result(s)
+	Parse    string   // rendering of the value stored by FromBytes
+	ParseErr string   // rendering of the error FromBytes returns ("" = nil)
+	Ctor     string   // constructor name ("" = none)
+}
+
+var codecTable = []codecSpec{
+	{Type: "String", GoType: "string", ToBytes: []string{"[]byte(v.value)"}, Parse: "string(d)", Ctor: "NewString"},
+	{Type: "Int", GoType: "int", ToBytes: []string{"[]byte(strconv.Itoa(v.value))"}, Parse: "strconv.Atoi(string(d))#0", ParseErr: "strconv.Atoi(string(d))#1", Ctor: "NewInt"},
+	{Type: "Uint", GoType: "uint64", ToBytes: []string{"[]byte(strconv.FormatUint(v.value, 10))"}, Parse: "strconv.ParseUint(string(d), 10, 64)#0", ParseErr: "strconv.ParseUint(string(d), 10, 64)#1", Ctor: "NewUint"},
+	{Type: "Float", GoType: "float64", ToBytes: []string{"v.source", "[]byte(strconv.FormatFloat(v.value, 102, -1, 64))"}, Parse: "strconv.ParseFloat(string(d), 64)#0", ParseErr: "strconv.ParseFloat(string(d), 64)#1", Ctor: "NewFloat"},
+	{Type: "Time", GoType: "time.Time", ToBytes: []string{`[]byte(v.value.Format("20060102-15:04:05.000"))`}, Parse: `time.Parse("20060102-15:04:05.000", string(d))#0`, ParseErr: `time.Parse("20060102-15:04:05.000", string(d))#1`, Ctor: "NewTime"},
+	{Type: "Bool", GoType: "bool", ToBytes: []string{`[]byte("Y")`, `[]byte("N")`}, Parse: `(string(d) == "Y")`},
+	{Type: "Raw", GoType: "[]byte", ToBytes: []string{"v.value"}, Parse: "d", Ctor: "NewRaw"},
+}
+
+// checkCodecs checks every value type against the table: formatter/parser pair, null-flag maintenance, Set, Value, constructor.
+func checkCodecs(c *core.Ctx, rule string, parts map[string]bool) {
+	has := func(k string) bool { return parts == nil || parts[k] }
+	// exhaustiveness: every implementation of fix.Value in package fix is in the table
+	fixPkg := c.Pkg("fix")
+	valueIface, _ := fixPkg.Types.Scope().Lookup("Value").Type().Underlying().(*types.Interface)
+	known := map[string]bool{}
+	for _, s := range codecTable {
+		known[s.Type] = true
+	}
+	if valueIface != nil {
+		for _, n := range fixPkg.Types.Scope().Names() {
+			tn, ok := fixPkg.Types.Scope().Lookup(n).(*types.TypeName)
+			if !ok || types.IsInterface(tn.Type()) {
+				continue
+			}
+			if types.Implements(types.NewPointer(tn.Type()), valueIface) {
+				c.Check(known[n], rule, n, "value type is in the codec table", tn.Pos(), "tabled", "a new implementation of fix.Value has no entry in the codec table: its formatter/parser pair is unchecked")
+			}
+		}
+	}
+	for _, sp := range codecTable {
+		tb := methodOf(c, "fix", sp.Type, "ToBytes")
+		fb := methodOf(c, "fix", sp.Type, "FromBytes")
+		set := methodOf(c, "fix", sp.Type, "Set")
+		isn := methodOf(c, "fix", sp.Type, "IsNull")
+		val := methodOf(c, "fix", sp.Type, "Value")
+		if !c.Anchor("value type "+sp.Type, tb != nil && fb != nil && set != nil && isn != nil && val != nil, sp.Type+" methods", posOf(tb)) {
+			continue
+		}
+		raw := sp.Type == "Raw"
+		// ---- ToBytes
+		if has("tobytes") {
+			paths, _ := an.EnumPaths(tb, 32)
+			var bad []string
+			seen := map[string]bool{}
+			for _, p := range paths {
+				if p.Return == nil {
+					continue
+				}
+				r := p.Results[0]
+				if r == "nil" {
+					if !raw && !p.Has("!v.valid") && !(sp.Type == "String" && p.Has(`v.value == ""`)) {
+						bad = append(bad, "returns nil under "+p.CondString())
+					}
+					continue
+				}
+				okForm := false
+				for _, f := range sp.ToBytes {
+					if r == f {
+						okForm = true
+						seen[f] = true
+					}
+				}
+				if !okForm {
+					bad = append(bad, "a populated value is serialized as "+r+" (accepted: "+strings.Join(sp.ToBytes, " | ")+")")
+				}
+				if !raw && !p.Has("v.valid") {
+					bad = append(bad, "bytes are produced without the value being populated: "+p.CondString())
+				}
+				if sp.Type == "Float" {
+					if r == "v.source" && !p.Has("v.source != nil") {
+						bad = append(bad, "source bytes are used without checking that they exist")
+					}
+					if r != "v.source" && !p.Has("v.source == nil") {
+						bad = append(bad, "the numeric value is formatted although source bytes from parsing exist: re-serialization would not be byte exact")
+					}
+				}
+				if sp.Type == "Bool" {
+					if r == `[]byte("Y")` && !p.Has("v.value") {
+						bad = append(bad, "Y is emitted for false")
+					}
+					if r == `[]byte("N")` && !p.Has("!v.value") {
+						bad = append(bad, "N is emitted for true")
+					}
+				}
+			}
+			for _, f := range sp.ToBytes {
+				if !seen[f] {
+					bad = append(bad, "no path produces "+f)
+				}
+			}
+			c.Check(len(bad) == 0, rule, sp.Type+".ToBytes", "canonical text of the populated value; nil when null", tb.Pos(), strings.Join(sp.ToBytes, " | "), strings.Join(bad, "; "))
+		}
+		// ---- FromBytes
+		if has("frombytes") {
+			paths, _ := an.EnumPaths(fb, 32)
+			var bad []string
+			nNil, nVal := 0, 0
+			for _, p := range paths {
+				if p.Return == nil {
+					continue
+				}
+				sts := map[string]string{}
+				for _, st := range storesOn(fb, p) {
+					sts[st.Field] = an.RenderOnPath(st.Val, p)
+				}
+				if raw {
+					nVal++
+					if sts["value"] != "d" {
+						bad = append(bad, "value ← "+sts["value"])
+					}
+					continue
+				}
+				if p.Has("d == nil") {
+					nNil++
+					if sts["valid"] != "false" {
+						bad = append(bad, "nil input does not clear the populated flag")
+					}
+					continue
+				}
+				nVal++
+				if sts["valid"] != "true" {
+					bad = append(bad, "a parsed value is not marked populated")
+				}
+				if sts["value"] != sp.Parse {
+					bad = append(bad, "value ← "+sts["value"]+", expected "+sp.Parse+" (the inverse of the formatter)")
+				}
+				if sp.Type == "Float" && sts["source"] != "d" {
+					bad = append(bad, "the source bytes are not retained (source ← "+sts["source"]+"): re-serialization would not be byte exact")
+				}
+				wantErr := sp.ParseErr
+				if wantErr == "" {
+					wantErr = "nil"
+				}
+				if p.Results[0] != wantErr {
+					bad = append(bad, "returns "+p.Results[0]+" instead of the parser's error "+wantErr)
+				}
+			}
+			if !raw && (nNil != 1 || nVal != 1) {
+				bad = append(bad, fmt.Sprintf("%d nil-input and %d parse paths (expected 1 and 1)", nNil, nVal))
+			}
+			c.Check(len(bad) == 0, rule, sp.Type+".FromBytes", "parses with the inverse of the formatter, marks populated; nil input marks null", fb.Pos(), "value ← "+sp.Parse, strings.Join(bad, "; "))
+		}
+		// ---- Set
+		if has("set") {
+			paths, _ := an.EnumPaths(set, 32)
+			var bad []string
+			nOK := 0
+			for _, p := range paths {
+				if p.Return == nil {
+					continue
+				}
+				sts := map[string]string{}
+				for _, st := range storesOn(set, p) {
+					sts[st.Field] = an.RenderOnPath(st.Val, p)
+				}
+				assertOK := ""
+				for _, a := range p.Atoms {
+					if strings.HasPrefix(a.L, "d.(") && strings.HasSuffix(a.L, "#1") && a.Rel == "true" {
+						assertOK = a.L
+					}
+				}
+				switch {
+				case assertOK != "":
+					nOK++
+					wantT := "d.(" + sp.GoType + ")"
+					if !strings.HasPrefix(assertOK, wantT) {
+						bad = append(bad, "Set asserts "+assertOK+", expected "+wantT)
+					}
+					if sts["value"] != wantT+"#0" {
+						bad = append(bad, "value ← "+sts["value"])
+					}
+					if !raw && sts["valid"] != "true" {
+						bad = append(bad, "a value that was set is not marked populated")
+					}
+					if sp.Type == "Float" && sts["source"] != "nil" {
+						bad = append(bad, "Set keeps the source bytes of a previously parsed value: ToBytes would emit the old text")
+					}
+					if p.Results[0] != "nil" {
+						bad = append(bad, "successful Set returns an error")
+					}
+				case p.Has("d == nil") && !raw:
+					if sts["valid"] != "false" {
+						bad = append(bad, "Set(nil) does not clear the populated flag")
+					}
+				default:
+					if p.Results[0] == "nil" && !(raw && p.Has("d == nil")) {
+						bad = append(bad, "a value of the wrong type is silently accepted: "+p.CondString())
+					}
+					if len(sts) > 0 {
+						bad = append(bad, "a failed Set modifies the value")
+					}
+				}
+			}
+			if nOK != 1 {
+				bad = append(bad, fmt.Sprintf("%d success paths", nOK))
+			}
+			c.Check(len(bad) == 0, rule, sp.Type+".Set", "stores a value of its Go type and marks it populated", set.Pos(), "d.("+sp.GoType+")", strings.Join(bad, "; "))
+		}
+		// ---- IsNull / Value
+		if has("isnull") {
+			paths, _ := an.EnumPaths(isn, 8)
+			want := "!v.valid"
+			if raw {
+				want = "(v.value == nil)"
+			}
+			ok := len(paths) == 1 && len(paths[0].Results) == 1 && paths[0].Results[0] == want
+			c.Check(ok, rule, sp.Type+".IsNull", "reports the populated flag", isn.Pos(), want, "IsNull is not "+want)
+			paths, _ = an.EnumPaths(val, 8)
+			ok = len(paths) == 1 && len(paths[0].Results) == 1 && paths[0].Results[0] == "v.value"
+			c.Check(ok, rule, sp.Type+".Value", "returns the stored value (dynamic type "+sp.GoType+")", val.Pos(), "v.value", "Value() does not return the stored value")
+		}
+		// ---- constructor
+		if has("ctor") && sp.Ctor != "" {
+			ctor := c.Func("fix", sp.Ctor)
+			if c.Anchor("constructor "+sp.Ctor, ctor != nil, sp.Ctor, posOf(ctor)) {
+				lit := constructorLiteral(ctor)
+				ok := lit["value"] == ctor.Params[0].Name() && (raw || lit["valid"] == "true")
+				c.Check(ok, rule, sp.Ctor, "yields a populated value holding its argument", ctor.Pos(), fmt.Sprint(lit),
+					fmt.Sprintf("%s builds %v: the value it returns reports IsNull() and the field is silently dropped from the message", sp.Ctor, lit))
+			}
+		}
+	}
+	// every exported New* constructor of a value type is covered
+	if has("ctor") {
+		sc := fixPkg.Types.Scope()
+		for _, n := range sc.Names() {
+			fnObj, ok := sc.Lookup(n).(*types.Func)
+			if !ok || !strings.HasPrefix(n, "New") {
+				continue
+			}
+			sig := fnObj.Type().(*types.Signature)
+			if sig.Results().Len() != 1 {
+				continue
+			}
+			rn := an.NamedOf(sig.Results().At(0).Type())
+			if rn == nil || !known[rn.Obj().Name()] {
+				continue
+			}
+			covered := false
+			for _, sp := range codecTable {
+				if sp.Ctor == n {
+					covered = true
+				}
+			}
+			c.Check(covered, rule, n, "value constructor is checked", fnObj.Pos(), "tabled", "an exported value constructor is not in the table: whether it populates the value is unchecked")
+		}
+	}
+}
